@@ -15,7 +15,7 @@ CHECKS = {
  "C06": (MICRO, "Seeded client identities, epochs (append/remove/eject/expiry) and concurrent traffic: one identity -> one backend per epoch, append moves keys only to the appended backend, every choice eligible, no panic for junk addresses. PARTIAL: the exhaustive 2^32 x pool-size sweep of the hash step is a pure function and is not performed.", "§3 C06, §4"),
  "C07": (MICRO, "Seeded search over schedules and histories: the real CircuitBreaker under the cooperative scheduler (every lock acquisition is a scheduling point), 1-4 concurrent clients plus a boundary burst; transition-stamped history checked against the envelope of the stated rules; and the breaker as wired in the balancer (5xx / unreachable / aborted failures must open; open rejects without backend contact).", "§3 C07"),
  "C08": (MICRO, "Recovery script from whatever state the drawn history reached, at component level (validator-accepted parameters) and through the balancer (accepted configurations): closed and admitting within timeout + success_threshold+max_requests+1 successes, with sequential traffic and with groups of overlapping requests one timeout apart; wait-for-graph deadlock / no-progress detection on state-change notifications.", "§3 C08"),
- "C09": (MICRO, "Seeded arrival histories on the fake clock (bursts of concurrent tasks, gaps around the refill period, idle hours across bucket expiry): all-pairs window bound, burst bound, full first burst, refill after idling, isolation by differential execution; at balancer level 429 + not forwarded + counted and client-key precedence.", "§3 C09"),
+ "C09": (MICRO, "Seeded arrival histories on the fake clock (bursts of concurrent tasks, gaps around the refill period, idle hours across bucket expiry, a client returning at the very instant of a cleanup tick): all-pairs window bound, burst bound, full first burst, refill after idling, isolation by differential execution; at balancer level 429 + not forwarded + counted and client-key precedence.", "§3 C09"),
  "C11": (MICRO, "Seeded sequential and concurrent admin histories (2-4 actors + traffic) through the real admin mux; linearizability of the step-stamped history against a sequential multiset model (porcupine); traffic served throughout (with instant and with slow backends whose requests are in flight across the changes; no request waits virtual time between arrival and dispatch) and never by a definitely removed backend; strategy switch preserves health.", "§3 C11"),
  "C12": ("two phases: (1) deterministic simulation workload (seeded) executed by free-running goroutines under the Go race detector (happens-before analysis; schedule not seed-decided) for data races; (2) deterministic micro-simulation of the same operation mix under the seeded cooperative scheduler with wait-for-graph deadlock detection (writer-preferring RWMutex model), panic and WaitGroup-misuse detection, replayable", "Seeded workloads of 8-64 goroutines (traffic with faults, admin mutations, metrics/health/backends readers, health transitions, breaker, limiter, shutdown) over the real stack built with -race, every strategy and feature combination drawn; violations are race reports touching Helios frames, panics, goroutines stuck on Helios locks (wait-for cycle incl. read-lock holders). Second phase, scenario lbmix: 3-10 (thorough up to 24) cooperative tasks per burst -- traffic with backend faults, admin list/add/remove/strategy, metrics/health readers, MarkBackendUnhealthy, probes, elapsed windows, Stop -- preempted at every Helios lock/atomic/go statement by the seeded scheduler; deadlock, no-progress, panic and WaitGroup misuse are violations with a replayable schedule.", "§3 C12"),
  "C14": (SYS, "Seeded exchanges through size_limit at drawn chain positions (one entry, or two entries with the stricter limit of each direction on either): limits 1-4096, bodies at limit-1/limit/limit+1/3x in declared and chunked framing, response bodies split into writes and network fragments, every status class incl. bodiless; byte bounds at both ends, 413 rules, and the C01 differential oracle within the limits.", "§3 C14"),
